@@ -385,7 +385,7 @@ pub fn run(report: &mut Report, replay: Option<&Value>) {
     let (n_syn, n_compiled) = if report.thorough() { (60_000, 1000) } else { (4_000, 100) };
     syn_campaign(report, n_syn);
     // E1: deny keeps accepting full payloads
-    let hooks = Hooks { classify: &classify, classify_compile: &|_, _| None, compile_failure_is_violation: false };
+    let hooks = Hooks { classify: &classify, classify_compile: &|_, _| None, compile_failure_is_violation: false, rebuild: None };
     let mut stats = GenStats::default();
     let mut cfg = CaseCfg::default();
     cfg.gen.deprecation_percent = 30;
